@@ -169,6 +169,27 @@ class SlugsStub:
 
 
 # ---------------------------------------------------------------------------------------------- engine proxy
+def snapshot(proxy):
+    """Canonical raw store dump, with a fast path: SQLite (rollback-journal mode) writes the main file at every commit
+    and only then, so identical file bytes mean an identical committed store and the previous dump can be reused; when
+    the bytes differ the store is dumped in full again (differing bytes alone are NOT taken as a changed store)."""
+    paths = [proxy.eng.path + sfx for sfx in ('', '-wal')]
+    h = hashlib.md5()
+    for p in paths:
+        try:
+            with open(p, 'rb') as f:
+                h.update(f.read())
+        except OSError:
+            h.update(b'<absent>')
+    key = h.digest()
+    cache = getattr(proxy, '_snap', None)
+    if cache is not None and cache[0] == key:
+        return cache[1]
+    d = proxy.eng.dump()
+    proxy._snap = (key, d)
+    return d
+
+
 def dump_digest(dump):
     return hashlib.sha1(json.dumps(dump, sort_keys=True, default=str).encode()).hexdigest()[:15]
 
@@ -261,7 +282,7 @@ def run_connection(proxy, conn, tls_client_auth=True, auth_settings=None, slugs=
     try:
         for _ in range(max_frames):
             sent0, calls0 = len(conn.sent), len(proxy.calls)
-            before = proxy.eng.dump() if dumps else None
+            before = snapshot(proxy) if dumps else None
             escaped = None
             try:
                 s._handle_message_loop()
@@ -275,7 +296,7 @@ def run_connection(proxy, conn, tls_client_auth=True, auth_settings=None, slugs=
                 frames.append({'frame': None, 'sent': conn.sent[sent0:], 'recv_sizes': conn.recv_sizes[cur.get('recv0', 0):],
                                'escaped': escaped, 'engine': None, 'dump_before': before, 'dump_after': before, 'ncalls': 0})
                 continue
-            after = proxy.eng.dump() if dumps else None
+            after = snapshot(proxy) if dumps else None
             calls = proxy.calls[calls0:]
             frames.append({'frame': cur['frame'], 'sent': conn.sent[sent0:],
                            'recv_sizes': conn.recv_sizes[cur['recv0']:cur['recv1']], 'escaped': escaped,
@@ -383,6 +404,8 @@ def coq_identity(cred):
     if cred is None:
         return 'None'
     user, groups = cred
+    if not isinstance(user, str) or not (groups is None or (isinstance(groups, list) and all(isinstance(g, str) for g in groups))):
+        raise ValueError('credential %r is not (user text, group list)' % (cred,))
     return '(Some (%s, %s))' % (cq.string(user), coq_groups(groups))
 
 
